@@ -197,7 +197,24 @@ def depth_scenario():
     if len(gen.Call.log) != depth + 1:
       viols.append(dict(what=f'chain of depth {depth}: {len(gen.Call.log)} invocations',
                         shape=[], same=False, sig='chain', store='', op='build'))
-  return 4, 1, viols, [dict(scenario='chain', deepest_built=depth_ok,
+  # beyond what the interpreter allows: the build may fail with RecursionError, but no Buildable is
+  # invoked twice on the way (a node finished before the deep descent, referenced again at the bottom)
+  for depth in (220, 400):
+    shared = fdl.Config(_Res, 'shared')
+    chain = fdl.Config(_combine, shared)
+    for _ in range(depth):
+      chain = fdl.Config(_combine, chain)
+    cfg = fdl.Config(_combine, shared, chain)
+    _Res.made.clear()
+    try:
+      fdl.build(cfg)
+    except RecursionError:
+      pass
+    if _Res.made.count('shared') > 1:
+      viols.append(dict(what=f'chain of depth {depth}: the Buildable finished before the deep descent was '
+                             f'invoked {_Res.made.count("shared")} times during one fdl.build',
+                        shape=[], same=False, sig='chain', store='', op='build'))
+  return 6, 1, viols, [dict(scenario='chain', deepest_built=depth_ok,
                              recursion_limit=sys.getrecursionlimit())]
 
 
